@@ -43,14 +43,14 @@ BCO = "optimism.BoundConstrainedObjective"
 def run(ctx):
     for m in (AL, CO, BCS, BCO, "optimism.NewtonSolver"):
         ctx.need_module(m)
-    d1(ctx)
-    d1_chain(ctx)
-    d2(ctx)
-    d3(ctx)
-    d4(ctx)
+    ctx.guard(d1, ctx)
+    ctx.guard(d1_chain, ctx)
+    ctx.guard(d2, ctx)
+    ctx.guard(d3, ctx)
+    ctx.guard(d4, ctx)
     from .common import settings_wiring
-    settings_wiring(ctx, "D3/T5-settings-wiring", AL)
-    d5_scaling(ctx)
+    ctx.guard(settings_wiring, ctx, "D3/T5-settings-wiring", AL)
+    ctx.guard(d5_scaling, ctx)
     ctx.trust("np.maximum(a, 0.0) >= 0 elementwise")
     ctx.trust("Fischer-Burmeister: sqrt(a^2+b^2) - a - b = 0  <=>  a >= 0, b >= 0, a*b = 0")
     ctx.assume("alSettings.penalty_scaling >= 1 (admissible settings in the property text)")
@@ -470,12 +470,12 @@ def d4(ctx):
             v = n.ast.value
             if isinstance(v, ast.Call) and len(v.args) == 2:
                 a = [x for x in v.args if const_value(x) != 0]
-                e = expand(scfg, n, a[0]) if a else None
                 # the point at which the constraint is evaluated must be the sub-problem solution (returned point)
                 rets = scfg.returns()
                 X = None
                 if rets and isinstance(rets[0].ast.value, ast.Tuple) and isinstance(rets[0].ast.value.elts[0], ast.Name):
                     X = rets[0].ast.value.elts[0].id
+                e = expand(scfg, n, a[0], stop=(X,) if X else ()) if a else None
                 B = Algebra()
                 try:
                     ok = X is not None and B.equal(B.lower(e), B.lower(ast.parse(f"{sobj}.lam - {sobj}.kappa*{sobj}.constraint({X})", mode="eval").body)) \
